@@ -4,6 +4,8 @@ import (
 	"fmt"
 	"io"
 	"os"
+	"strconv"
+	"time"
 	"go/constant"
 	"go/token"
 	"go/types"
@@ -151,6 +153,7 @@ type Exec struct {
 	mapOrders bool
 	unsatMemo map[uint32]*PCNode
 	symAddr bool
+	cur *State
 }
 
 func NewExec(prog *ssa.Program, solverKind string, timeoutMs int) (*Exec, error) {
@@ -168,6 +171,17 @@ func NewExec(prog *ssa.Program, solverKind string, timeoutMs int) (*Exec, error)
 		params: map[string]int{}, violSeen: map[string]int{}, unwind: 200, maxSteps: 2000000, maxPaths: 1000000, maxDepth: 200,
 		allocCap: 65536, mapOrders: true, unsatMemo: map[uint32]*PCNode{}}
 	ex.resetStats()
+	if v := os.Getenv("VCHECK_SLOW"); v != "" {
+		ms, _ := strconv.Atoi(v)
+		s.SlowThreshold = time.Duration(ms) * time.Millisecond
+		s.SlowLog = func(d time.Duration, r Result) {
+			site := "?"
+			if ex.cur != nil {
+				site = ex.site(ex.cur) + " in " + ex.cur.top().fn.Name()
+			}
+			fmt.Fprintf(os.Stderr, "SLOW %v %s at %s\n", d.Round(time.Millisecond), r, site)
+		}
+	}
 	return ex, nil
 }
 
@@ -791,6 +805,7 @@ func (ex *Exec) addSample(st *State) {
 }
 
 func (ex *Exec) runPath(st *State) (end pathEnd) {
+	ex.cur = st
 	defer func() {
 		if r := recover(); r != nil {
 			if pe, ok := r.(pathEnd); ok {
